@@ -315,6 +315,28 @@ fn h4(out: &mut Vec<ModuleSpec>, _thorough: bool) {
             false,
         );
     }
+    // a withdrawn datum whose type cannot even be named from the including module: it is a field
+    // of no variant, the generated module must not mention it
+    for s in [Simple, Basic] {
+        fragments(
+            ModuleSpec::new(
+                format!("h4/pending_removed_unnameable/{}", s.name()),
+                vec![
+                    add("a", U32),
+                    add("ghost", NoSuchType),
+                    rm("ghost"),
+                    add("b", Str),
+                    close(s),
+                    addu("ghost2", NoSuchType),
+                    add("c", U16),
+                    rm("ghost2"),
+                    close(s),
+                ],
+            ),
+            out,
+            false,
+        );
+    }
     // only a ghost in a later close: no pending change left, close is a no-op
     fragments(
         ModuleSpec::new(
